@@ -29,8 +29,8 @@ change is caught; the notes below say what was missing and what was added. Three
 my own known-finding entries being too broad (a new failure inside the class of an open finding was
 absorbed by it): those entries now enumerate the exact failing cases (`known_cases/*.json`). One miss
 (C03-c) was caused by the monitor being more lenient than the property (CIF_ERROR without a callback was
-accepted although the harness cannot produce an I/O failure). Writing the strengthening families also
-exposed four further genuine defects of the unchanged library (section 7.1, the last entries).
+accepted although the harness could not, at that time, produce an I/O failure). Writing the strengthening families also
+exposed six further genuine defects of the unchanged library (section 7.1, the last entries).
 %s
 The table shows the outcome with the final machinery (quick tier; "missed" in a column of *another*
 property's check is expected and only recorded for information).
